@@ -317,7 +317,8 @@ func Phase(log []string) string {
 			phase = "endheight-synced"
 		case strings.HasPrefix(l, "batch[LastBlock"):
 			phase = "head-written"
-		case (strings.HasPrefix(l, "batch[") || strings.HasPrefix(l, "put[")) && (phase == "endheight-synced" || phase == "applying"):
+		case (strings.HasPrefix(l, "batch[") || strings.HasPrefix(l, "put[")) && (phase == "endheight-synced" || phase == "applying" || phase == "block-saved"):
+			// (directly after "block-saved": a log without WAL labels - ApplyBlock only runs after the #ENDHEIGHT sync)
 			phase = "applying"
 		}
 	}
